@@ -123,7 +123,7 @@ TEXT = {
                  "to resolve a dotted name left to right from the containing function's globals, to start the traversal of the rule of the FIRST resolvable prefix with this traversal's result set / root / "
                  "package scope / blacklist, to raise DependencyNotFoundError exactly for a required name that ends without a rule, and to leave for an optional name that stops at something missing an "
                  "undefined-symbol rule watching exactly the place where the name will appear; the collect_transitive_dependencies methods of memento-function and plain-function rules are proved (loop "
-                 "invariants, any number of names) not to descend into a rule already collected, otherwise to record it and visit every declared / detected name of its function once, from that function's "
+                 "invariants, any number of names) not to descend into a rule already collected, otherwise to record it and visit every declared / detected name of its function (as many visits as names), from that function's "
                  "globals, under its own name, marking dependencies of the root as direct, and to neither record nor look into a plain function outside the package scope. The three try_resolve strategies are proved to recognise a memento function behind any functools.wraps chain (the rule is for the first one), a callable with a global scope, and a value that can be serialised (the rule records the serialisation) -- and nothing else.",
         "note": "Partial: the AST visitor list_dotted_names and the strategy loop resolve_symbol / try_resolve are summarised by uninterpreted functions (assumed); df()/graph linking is not covered; "
                 "exactness w.r.t. the reference graph of an arbitrary program is the induction over these per-call contracts, not a machine-checked theorem; _extract_fn_ref_args (recursive walk) is an assumed summary.",
